@@ -13,6 +13,8 @@ THEOREMS = [
     "Vinegar.C01.c01Check_runTransfer",
     "Vinegar.C01.complete_unless_aborted",
     "Vinegar.C01.idealPackets_numbers",
+    "Vinegar.C01.idealPackets_wraps",
+    "Vinegar.C01.idealPackets_stops",
     "Vinegar.C01.overflow_error_not_reuse",
 ]
 TRUSTED_BASE = T.TRUSTED_BASE
